@@ -560,8 +560,11 @@ class Device(nfc.clf.device.Device):
                     brty, data = data.split()
                 except ValueError:
                     raise nfc.clf.TransmissionError("no data")
-                brty = brty.decode("ascii")
-                data = bytearray(unhexlify(data))
+                try:
+                    brty = brty.decode("ascii")
+                    data = bytearray(unhexlify(data))
+                except (TypeError, ValueError):
+                    raise nfc.clf.TransmissionError("invalid data")
                 self.rcvd_data += len(data)
                 if brty in brty_list:
                     return brty, data, addr
